@@ -702,6 +702,10 @@ def merge_measure_contents(notes, other, measure_start):
 
         else:
             elements = notes[voice]
+            if elements:
+                # a voice that is not filled (e.g. notes that were moved to a
+                # free voice) needs <forward> across its gaps as well
+                elements, _ = merge_with_voice(elements, [], elements[0][0])
 
         # backup/forward when switching voices if necessary
         if elements:
